@@ -16,6 +16,17 @@ inductive Scratch (F : BodyFn) (P : Project) (inp : FS) : Nat → Nat → Prop
       (∀ (k d v : Nat), t.deps[k]? = some d → vs[k]? = some v → Scratch F P inp d v) →
       Scratch F P inp p (F t.id i (lookup inp t.src) (vs.map some))
 
+/-- Worlds reachable by a history of edits and builds over the (static) project `P`: start from any
+files and an empty state table; `edit` = any change of file contents (create / rewrite / delete;
+inputs, module files, products); `dbLost` = the state table is deleted; `build` = any build with any
+options and any schedule the loop accepts. -/
+inductive History (F : BodyFn) (P : Project) : World → Prop
+  | init (fs : FS) : History F P ⟨fs, []⟩
+  | edit {w : World} (fs' : FS) : History F P w → History F P { w with fs := fs' }
+  | dbLost {w : World} : History F P w → History F P { w with db := [] }
+  | build {w : World} (cfg : Cfg) (picks : List Nat) (r : Result) :
+      History F P w → Engine.build F P cfg w picks = .ok r → History F P r.w
+
 /-- `UpTo P u t`: `u` is `t` or produces, through a chain of products, something `t` consumes. -/
 inductive UpTo (P : Project) : Nat → Nat → Prop
   | refl (t : Nat) : UpTo P t t
